@@ -21,7 +21,8 @@ RULE = ("Mode 'single': a generated site (dirs, gophermaps, mbox, Maildir, HTML,
         "unless the target is an empty file/directory. Mode 'history': 2-10 read-only requests in one process "
         "with caching on and module state kept; every reply must equal the reply to the same request alone on "
         "a pristine tree (directory timestamps masked). Non-trivial: malformed/virtual/missing target, or a "
-        "history step following a listing that left a cache file in a directory it touches.")
+        "history step following a listing that left a cache file in a directory it touches. Mode 'live' (two cases): 18 selectors x 13 "
+        "forms over real sockets and real TLS against threading and forking servers; every reply must equal the in-process reply.")
 ASSUMPTIONS = [
     "content is well-formed (quantifier); strings that become Gopher menu fields contain no TAB/CR/LF",
     "a pristine tree is emulated by deleting the server's cache files and resetting its lazily initialised "
@@ -87,6 +88,82 @@ def _case(draw):
 
 def strategy(tier):
     return _case()
+
+
+def enumerate_cases(tier, seed):
+    """live differential: the same requests over real sockets (plaintext and real TLS) and through the in-process seam"""
+    yield {"mode": "live", "servertype": "ThreadingTCPServer"}
+    yield {"mode": "live", "servertype": "ForkingTCPServer"}
+
+
+LIVE_SPEC = [
+    ["readme.txt", "f", "hello\nworld\n"], ["empty.txt", "f", ""], ["big.bin", "f", "".join(chr(i % 251) for i in range(150000))],
+    ["page.html", "f", "<html><head><title>A Page</title></head><body>x</body></html>\n"], ["dir/sub/deep.txt", "f", "deep\n"],
+    ["dir/a b.txt", "f", "blank in name\n"], ["dir/.names", "f", "Path=./sub\nName=Sub Dir\n"], ["box.mbox", "f", None],
+    ["arc.zip", "zip", {"members": [["in/x.txt", "f", "zip member\n", {}], ["big.dat", "f", "z" * 70000, {}]]}],
+    ["c.txt.gz", "f", None], ["run.sh", "f", None, 0o755],
+]
+LIVE_SELS = ["/", "/readme.txt", "/empty.txt", "/big.bin", "/page.html", "/dir", "/dir/sub/deep.txt", "/dir/a b.txt", "/box.mbox",
+             "/box.mbox|/MBOX-MESSAGE/1", "/arc.zip", "/arc.zip/in/x.txt", "/arc.zip/big.dat", "/c.txt.gz", "/run.sh", "/nosuch",
+             "/dir/../readme.txt", "/URL:http://example.org/"]
+
+
+def _check_live(case, ctx):
+    from pgv import live
+    spec = [list(e) for e in LIVE_SPEC]
+    for e in spec:
+        if e[0] == "box.mbox":
+            e[2] = sites.mbox_text(["first subject", "second"])
+        elif e[0] == "c.txt.gz":
+            e[2] = sites.gz_text("compressed text\n" * 300)
+        elif e[0] == "run.sh":
+            e[2] = sites.SCRIPT
+    base, root = world.build(spec, "c03live")
+    srv = None
+    fails = []
+    try:
+        conf = live.write_conf(os.path.join(base, "live.conf"), root, "full", case["servertype"], cachetime=0)
+        srv = live.Server(conf)
+        cfg = drive.make_config(root, "full", **{"handlers.dir.DirHandler::cachetime": "0"})
+        for sel in LIVE_SELS:
+            for form in FORMS:
+                tls, fam = clients.FORMS[form]
+                req = clients.encode(form, world.b(sel))
+                try:
+                    got = live.request(srv.port, req, tls, timeout=30)
+                except Exception as e:  # noqa
+                    got = e
+                ref = drive.serve(cfg, req, tls=tls, realfd=True)
+                ctx.evaluations += 1
+                ctx.count("live_requests")
+                ctx.nontriv(("live", case["servertype"], sel, form))
+                if isinstance(got, Exception):
+                    fails.append(Fail("live-no-response:%s:%s" % (fam, "tls" if tls else "plain"),
+                                      "over a real %s connection the %s request for %r got no complete response: %r" % (
+                                          "TLS" if tls else "plaintext", form, sel, got)))
+                    continue
+                a, b = _mask(got), _mask(ref.response)
+                if a != b:
+                    i = next((k for k, (x, y) in enumerate(zip(a, b)) if x != y), min(len(a), len(b)))
+                    fails.append(Fail("live-differs:%s:%s" % (fam, "tls" if tls else "plain"),
+                                      "over a real %s connection (%s) the %s reply for %r differs from the reply of the same "
+                                      "code driven in-process, at byte %d (%d vs %d bytes)" % (
+                                          "TLS" if tls else "plaintext", case["servertype"], form, sel, i, len(a), len(b)),
+                                      {"live": world.u(a[max(0, i - 40):i + 80]), "inprocess": world.u(b[max(0, i - 40):i + 80])}))
+        if not srv.alive():
+            fails.append(Fail("live-server-died", "the live server exited"))
+        ctx.label("live:" + case["servertype"])
+        ctx.sample({"live": case["servertype"], "selectors": LIVE_SELS, "forms": FORMS}, cls="live")
+        seen, out = set(), []
+        for f in fails:
+            if f.sig not in seen:
+                seen.add(f.sig)
+                out.append(f)
+        return out
+    finally:
+        if srv is not None:
+            srv.stop()
+        world.rmtree(base)
 
 
 def examples(tier):
@@ -319,6 +396,8 @@ def _cfg(root, full, cachetime):
 
 
 def check_case(case, ctx):
+    if case.get("mode") == "live":
+        return _check_live(case, ctx)
     objs = sites.objects(case["site"])
     spec = sites.to_spec(case["site"])
     full = case["full"]
